@@ -10,6 +10,7 @@ from __future__ import annotations
 
 import cmath
 import collections
+import copy
 import csv
 import io as _pyio
 import json
@@ -19,6 +20,7 @@ import os
 import re
 import shutil
 import subprocess
+import sys
 
 import numpy as np
 import yaml
@@ -430,6 +432,7 @@ class Impl:
         self.io = pio
         self.tmp = tmp
         self.n = 0
+        self.last = None
 
     def validate(self, s):
         try:
@@ -461,15 +464,16 @@ class Impl:
 
     def read(self, path):
         try:
-            r = self.io.read_scsv(path)
+            r = self.last = self.io.read_scsv(path)          # the object the caller received (sessions edit it afterwards)
             return ("OK", list(r._fields), [tuple(c) for c in r])
         except Exception as e:  # noqa: BLE001
             return ("READ-ERR", exc_enum(e), str(e)[:120])
 
-    def roundtrip(self, s, data, comments=None):
-        """-> (result, file text or None)"""
+    def roundtrip(self, s, data, comments=None, path=None):
+        """-> (result, path of the file); path given: the caller writes to a file that already exists"""
         self.n += 1
-        path = os.path.join(self.tmp, f"c{self.n}.scsv")
+        self.last = None
+        path = path or os.path.join(self.tmp, f"c{self.n}.scsv")
         try:
             if comments is None:
                 self.io.save_scsv(path, s, data)
@@ -1394,6 +1398,327 @@ def gen_terse_roundtrips(rng, impl_parse):
     return out
 
 
+# ----------------------------------------------------------------------------------------
+# sessions: several round trips in ONE process (added after seeded change C16f).  The property quantifies over single
+# save / read pairs, so each round trip of a session is judged on its own -- what was saved or read before must not matter.
+# The caller carries between the calls: values that are equal but not the same (schemas that differ only in the
+# REPRESENTATION of a scalar), the same dictionary object edited in place, the same file path written again, and the
+# objects it handed over / got back, which it may edit afterwards.
+# ----------------------------------------------------------------------------------------
+# scalars that compare equal (==) and hash equal although they are different values: whatever looks a value up by
+# equality (dict / set / functools.lru_cache key, `in`, `.index`) takes one for the other
+TWINS = {
+    "zero": [0, 0.0, -0.0, False],
+    "one": [1, 1.0, True],
+    "minus-one": [-1, -1.0],
+    "seven": [7, 7.0],
+    "2^53": [2 ** 53, 2.0 ** 53],
+    "1e16": [10 ** 16, 1e16],
+}
+SESSION_TYPES = ("string", "float", "complex", "integer")
+SESSION_OTHER = {"string": ["p", "q r", "s1", "ü∅"], "integer": [3, 12, -4, 10 ** 20], "float": [1.5, -2.25, float("inf"), 1e-5],
+                 "complex": [1 + 2j, -3.5j, complex(2.5, float("inf"))], "boolean": [True, False, True, True]}
+SESSION_VARIANTS = ("fill_twins", "marker_swap", "type_swap", "fill_swap", "same_again", "grow_shrink")
+SESSION_FLAGS = ("same_object", "same_path", "scribble")
+
+
+def yaml_keeps_number(fill):
+    """a non-string fill is written verbatim after 'fill: '; does YAML load a number back?"""
+    try:
+        v = yaml.safe_load("k: %s" % (fill,))["k"]
+    except Exception:  # noqa: BLE001
+        return False
+    return isinstance(v, (int, float)) and v == fill
+
+
+def session_fill(t, fill):
+    """the fill of a field of type t in a session.  EXCLUDED INPUT CLASS: an *integer* field with a *float* fill -- the float
+    member of a class is replaced by the integer it denotes (integer fields run through the int / bool members only).
+    Two reasons: (1) model restriction: int(<float fill>) is outside `conv` of Model_scsv (the model answers Err EUnmodelled
+    for such a schema); (2) behaviour of the unchanged tree met while building this family and reported with it (docs/C16.md,
+    "integer field with a float fill in exponent form"): a float that Python prints without a decimal point (1e16, 1e22:
+    `fill: 1e+16`) is loaded by YAML 1.1 as a *string*, and read_scsv raises ValueError from int('1e+16') on the missing cells
+    of a file save_scsv wrote without complaint.  Float / complex / string fields keep every member (1e16 included)."""
+    if t == "integer" and isinstance(fill, float):
+        return int(fill)
+    return fill
+
+
+def others_for(t, fv, n, rng):
+    pool = [x for x in SESSION_OTHER[t] if not (x == fv)]
+    return [pool[int(rng.integers(len(pool)))] for _ in range(n)]
+
+
+def session_columns(rng, fields, n_other=2):
+    """columns for `fields`: rows of cells that differ from the fill, one row of fill-valued cells (all written as the missing
+    marker), one mixed row; a fill-valued cell is always IDENTICAL to the typed fill (signed zeros)"""
+    cols = []
+    for j, f in enumerate(fields):
+        t = f.get("type", "string")
+        if t == "boolean":
+            cols.append([bool(rng.integers(2)) for _ in range(n_other + 2)])
+            continue
+        fv = fill_value(t, f.get("fill", ""))
+        oth = others_for(t, fv, n_other + 1, rng)
+        cols.append(oth[:n_other] + [fv] + [fv if j % 2 == 0 else oth[-1]])
+    return cols
+
+
+def _step(variant, s, data, **kw):
+    st = {"schema": s, "data": data, "variant": variant}
+    st.update(kw)
+    return st
+
+
+def twin_session(rng, members, types, d, m, offsets=None, with_bool=False):
+    """one round trip per member of a class of equal-but-different scalars: the same fields, the same missing marker,
+    the fills replaced by the next member; every file has missing cells in every column"""
+    offsets = offsets or [0] * len(types)
+    steps = []
+    names = ["a", "b", "col_1", "x2", "Temp", "strain", "angle", "T"]
+    for i in range(len(members)):
+        fields = []
+        for j, t in enumerate(types):
+            fields.append({"name": names[j], "type": t, "fill": session_fill(t, members[(i + offsets[j]) % len(members)])})
+        if with_bool:
+            fields.append({"name": "flag", "type": "boolean"})
+        steps.append(_step("fill_twins", {"delimiter": d, "missing": m, "fields": fields}, session_columns(rng, fields)))
+    return steps
+
+
+def gen_sessions(rng, scale):
+    """-> list of sessions; a session is a list of steps {schema, data, variant, same_object, same_path, scribble}"""
+    out = []
+    delims, markers = [",", ";", "\t", "|", "~"], ["NA", "-", "n/a", "--", "", "?"]
+
+    def flags(steps, r=None):
+        r = rng.random(3) if r is None else r
+        for k, st in enumerate(steps):
+            st["same_object"] = bool(r[0] < 0.4 and k > 0)      # the caller edits its schema dictionary in place and passes it again
+            st["same_path"] = bool(r[1] < 0.4 and k > 0)        # ... writes to the path of the previous file
+            st["scribble"] = bool(r[2] < 0.4)                   # ... overwrites what it handed over and what it got back, after the call
+        return steps
+
+    # (a) equal-but-different fills: every class forwards and backwards over one field of each type (systematic) ...
+    for cls, members in TWINS.items():
+        out.append(flags(twin_session(rng, members, SESSION_TYPES, ",", "NA"), r=(1, 1, 1)))
+        out.append(flags(twin_session(rng, members[::-1], SESSION_TYPES, ";", "-"), r=(0, 0, 1)))
+    # ... and drawn: a sub-sequence of a class in any order, 1..5 fields of any types, per-field offsets, delimiters, markers
+    for k in range(8 * scale):
+        members = list(TWINS[list(TWINS)[int(rng.integers(len(TWINS)))]])
+        members = [members[int(i)] for i in rng.permutation(len(members))[:int(rng.integers(2, len(members) + 1))]]
+        nf = int(rng.integers(1, 6))
+        types = [SESSION_TYPES[int(rng.integers(4))] for _ in range(nf)]
+        out.append(flags(twin_session(rng, members, types, delims[int(rng.integers(len(delims)))], markers[int(rng.integers(len(markers)))],
+                                      offsets=[int(x) for x in rng.integers(0, len(members), nf)], with_bool=rng.random() < 0.3)))
+    # (b) the missing marker of one file is a string cell of the next and the other way round; then the first file again
+    for k in range(4 * scale):
+        m1, m2 = [("NA", "-"), ("n/a", "NA"), ("--", "?"), ("", "NA"), ("N/A", "n/a")][int(rng.integers(5))]
+        d = delims[int(rng.integers(len(delims)))]
+        fields = [{"name": "label", "type": "string", "fill": "none"}, {"name": "x", "type": "float", "fill": ["NaN", 1.5, "inf"][int(rng.integers(3))]},
+                  {"name": "n", "type": "integer", "fill": ["0", 7][int(rng.integers(2))]}]
+        steps = []
+        for m, other in ((m1, m2), (m2, m1), (m1, m2)):
+            cols = session_columns(rng, fields)
+            cols[0][0] = other if other != "" else "p"
+            steps.append(_step("marker_swap", {"delimiter": d, "missing": m, "fields": copy.deepcopy(fields)}, cols))
+        out.append(flags(steps))
+    # (c) the same field name and the same cell texts under another declared type
+    typed = {"string": ["1", "0", "10", "0"], "integer": [1, 0, 10, 0], "float": [1.0, 0.0, 10.0, 0.0], "boolean": [True, False, True, False],
+             "complex": [1 + 0j, 0j, 10 + 0j, 0j]}
+    for k in range(3 * scale):
+        order = [list(typed)[int(i)] for i in rng.permutation(5)]
+        d, m = delims[int(rng.integers(len(delims)))], ["NA", "-", "n/a"][int(rng.integers(3))]
+        steps = []
+        for t in order:
+            fx = {"name": "x", "type": t}
+            if t != "boolean":
+                fx["fill"] = "0"
+            steps.append(_step("type_swap", {"delimiter": d, "missing": m, "fields": [fx, {"name": "k", "type": "integer", "fill": -1}]},
+                               [list(typed[t]), [5, -1, 6, 7]]))
+        out.append(flags(steps))
+    # (d) the fill of one file is an ordinary cell of the next and the other way round
+    pairs = {"string": [("none", "n.a."), ("x y", "MISSING")], "float": [(1.5, -2.25), ("NaN", "inf"), ("0.0", 1e-5)],
+             "integer": [("0", 7), (-1, "999999")], "complex": [("NaN", "(1+2j)"), ("0j", 1.5)]}
+    for k in range(4 * scale):
+        nf = int(rng.integers(1, 5))
+        types = [SESSION_TYPES[int(rng.integers(4))] for _ in range(nf)]
+        pick = [pairs[t][int(rng.integers(len(pairs[t])))] for t in types]
+        d, m = delims[int(rng.integers(len(delims)))], markers[int(rng.integers(len(markers)))]
+        steps = []
+        for side in (0, 1, 0):
+            fields = [{"name": "c%d" % j, "type": t, "fill": pick[j][side]} for j, t in enumerate(types)]
+            cols = []
+            for j, t in enumerate(types):
+                a, b = fill_value(t, pick[j][0]), fill_value(t, pick[j][1])
+                cols.append([a, b, [x for x in SESSION_OTHER[t] if not (x == a) and not (x == b)][0], b, a])
+            steps.append(_step("fill_swap", {"delimiter": d, "missing": m, "fields": fields}, cols))
+        out.append(flags(steps))
+    # (e) the very same schema and columns three times
+    for k in range(3 * scale):
+        while True:
+            s = gen_schema(rng, nfields=int(rng.integers(1, 5)))
+            data = gen_data(rng, s, nrows=int(rng.integers(1, 5)))
+            if s["delimiter"] != "-" and not finding_keys(s, data) and prop_valid_schema(s) and prop_representable(s, data):
+                break
+        out.append(flags([_step("same_again", copy.deepcopy(s), copy.deepcopy(data)) for _ in range(3)]))
+    # (f) one path written three times, with fewer and with more rows than the file it replaces
+    for k in range(3 * scale):
+        d, m = delims[int(rng.integers(len(delims)))], markers[int(rng.integers(len(markers)))]
+        fields = [{"name": "label", "type": "string", "fill": "none"}, {"name": "x", "type": "float", "fill": "NaN"},
+                  {"name": "n", "type": "integer", "fill": 0}][:int(rng.integers(1, 4))]
+        steps = [_step("grow_shrink", {"delimiter": d, "missing": m, "fields": copy.deepcopy(fields)}, session_columns(rng, fields, n_other=n))
+                 for n in [(4, 0, 6), (1, 5, 0), (6, 3, 1)][k % 3]]
+        steps = flags(steps)
+        for st in steps[1:]:
+            st["same_path"] = True
+        out.append(steps)
+    return out
+
+
+def _scribble(o):
+    """overwrite every mutable container reachable from o"""
+    if isinstance(o, dict):
+        for k in list(o):
+            if isinstance(o[k], (dict, list)):
+                _scribble(o[k])
+            else:
+                o[k] = "scribbled"
+    elif isinstance(o, list):
+        for i, x in enumerate(o):
+            if isinstance(x, (dict, list)):
+                _scribble(x)
+            else:
+                o[i] = "scribbled"
+
+
+def typed_snapshot(s, data):
+    return (json.dumps(s, sort_keys=True, default=repr), repr(data))
+
+
+class Session:
+    """what a caller carries from one round trip to the next in one process"""
+
+    def __init__(self, impl):
+        self.impl, self.obj, self.path = impl, None, None
+
+    def begin(self, st):
+        """-> (schema object, columns, path or None) to call save_scsv with"""
+        s = copy.deepcopy(st["schema"])
+        data = [type(col)(col) if isinstance(col, (list, tuple)) else col for col in st["data"]]
+        if st.get("same_object") and isinstance(self.obj, dict) and isinstance(s, dict):
+            self.obj.clear()
+            self.obj.update(s)
+            s = self.obj
+        self.obj = s
+        return s, data, (self.path if st.get("same_path") else None)
+
+    def end(self, st, s, data, path):
+        self.path = path
+        if st.get("scribble"):
+            _scribble(data)
+            _scribble(s)
+            _scribble(getattr(self.impl.last, "_schema", None))
+
+    def run(self, st):
+        """-> (result, text of the written file or None, the caller's objects were modified by the calls)"""
+        s, data, path = self.begin(st)
+        before = typed_snapshot(s, data)
+        r, path = self.impl.roundtrip(s, data, st.get("comments"), path=path)
+        mutated = before != typed_snapshot(s, data)
+        text = None
+        if r[0] != "SAVE-ERR" and os.path.exists(path):
+            try:
+                text = open(path, newline="").read().replace("\r\n", "\n")
+            except Exception:  # noqa: BLE001
+                text = None
+        self.end(st, s, data, path)
+        return r, text, mutated
+
+
+def session_failures(impl, steps):
+    """the property oracle on every round trip of a session run in this process, in order -> [(None, text)]"""
+    sess, out = Session(impl), []
+    for i, st in enumerate(steps):
+        r, text, _ = sess.run(st)
+        for k, t in judge(st["schema"], st["data"], r, text, st.get("fault")):
+            out.append((k, f"round trip {i + 1} of {len(steps)}: {t}"))
+    return out
+
+
+def encode_session(steps):
+    return {"session": [dict(encode_case(st), variant=st.get("variant"), **{k: bool(st.get(k)) for k in SESSION_FLAGS}) for st in steps]}
+
+
+def decode_session(d):
+    steps = []
+    for e in d["session"]:
+        s, data, fault = decode_case(e)
+        steps.append(dict({"schema": s, "data": data, "fault": fault, "variant": e.get("variant")}, **{k: bool(e.get(k)) for k in SESSION_FLAGS}))
+    return steps
+
+
+def fresh_process_failures(inp):
+    """the replay of `inp` (a case or a session) in a NEW process: what an earlier call of this process left behind (caches,
+    module state, files) is not there.  -> list of failure texts (empty: the input does not fail by itself)"""
+    d = os.path.join(common.BUILD, "cases")
+    os.makedirs(d, exist_ok=True)
+    path = os.path.join(d, f"C16_candidate_{os.getpid()}.json")
+    with open(path, "w") as f:
+        json.dump({"kind": "property-violation", "input": inp}, f, default=str)
+    try:
+        p = subprocess.run([sys.executable, os.path.join(common.VERIF, "harness", "main.py"), "C16", "--replay", path],
+                           stdout=subprocess.PIPE, stderr=subprocess.STDOUT, text=True, timeout=600)
+    except Exception:  # noqa: BLE001
+        return []
+    finally:
+        try:
+            os.unlink(path)
+        except OSError:
+            pass
+    fails = [ln[len("still fails: "):] for ln in p.stdout.splitlines() if ln.startswith("still fails: ")]
+    return fails if p.returncode == 1 else []
+
+
+def restrict_session(steps, col):
+    """the session with only the field / column number col of every round trip"""
+    out = []
+    for st in steps:
+        s = dict(st["schema"], fields=[st["schema"]["fields"][col]])
+        out.append(dict(st, schema=s, data=[st["data"][col]]))
+    return out
+
+
+def shrink_session(steps, fails):
+    """fewer round trips, one column, no caller-side edits -- every reduction is confirmed in a fresh process"""
+    best, best_fails, runs = steps, fails, 0
+    m = re.match(r"round trip (\d+) of", fails[0])
+    j = int(m.group(1)) - 1 if m else len(steps) - 1
+    for cand in [[steps[j]]] + [[steps[i], steps[j]] for i in range(j - 1, -1, -1)]:
+        if len(cand) >= len(best) or runs >= 5:
+            break
+        runs += 1
+        f = fresh_process_failures(encode_session(cand))
+        if f:
+            best, best_fails = cand, f
+            break
+    m = re.search(r"column (\d+) row", best_fails[0])
+    if m and len(best[0]["schema"]["fields"]) > 1:
+        try:
+            cand = restrict_session(best, int(m.group(1)))
+            f = fresh_process_failures(encode_session(cand))
+            if f:
+                best, best_fails = cand, f
+        except Exception:  # noqa: BLE001
+            pass
+    if any(st.get(k) for st in best for k in SESSION_FLAGS):
+        cand = [dict(st, **{k: False for k in SESSION_FLAGS}) for st in best]
+        f = fresh_process_failures(encode_session(cand))
+        if f:
+            best, best_fails = cand, f
+    return best, best_fails
+
+
 def gen_cases(chk, tier):
     rng = np.random.default_rng(chk.seed)
     scale = 1 if tier == "quick" else 6
@@ -1512,6 +1837,11 @@ def gen_cases(chk, tier):
     for i, c in enumerate(cases):
         if c["kind"] == "rt" and i % 8 == 0:
             c["repeat"] = True
+    # (12) sessions: consecutive round trips of one process whose schemas are equal-but-different (fills 0 / 0.0 / -0.0 / False ...),
+    #      swap markers / types / fills, repeat, or overwrite one path; each step is an ordinary round-trip case, run in this order
+    for sid, steps in enumerate(gen_sessions(np.random.default_rng(chk.seed + 16), scale)):
+        for k, st in enumerate(steps):
+            cases.append(dict(st, kind="rt", stream="session", session=sid, step=k, session_steps=steps))
     return cases
 
 
@@ -1575,12 +1905,16 @@ def prepare(impl, c):
         return "(run_unquote %s)" % cs(c["text"])
     s, data = c["schema"], c["data"]
     c["impl_validate"] = impl.validate(s)
-    before = (json.dumps(s, sort_keys=True, default=repr), repr(data))
-    r, path = impl.roundtrip(s, data, c.get("comments"))
+    sess, live_s, live_data, at = None, s, data, None
+    if c.get("session") is not None:          # the caller's objects of this step (a dictionary edited in place, a path written before)
+        sess = _LIVE.setdefault((id(impl), c["session"]), Session(impl))
+        live_s, live_data, at = sess.begin(c)
+    before = typed_snapshot(live_s, live_data)
+    r, path = impl.roundtrip(live_s, live_data, c.get("comments"), path=at)
     c["impl"] = r
     c["text"] = None
     # the calls leave the caller's schema and columns alone; a second call gives the same result
-    c["inputs_mutated"] = before != (json.dumps(s, sort_keys=True, default=repr), repr(data))
+    c["inputs_mutated"] = before != typed_snapshot(live_s, live_data)
     c["repeat_differs"] = None
     if c["kind"] == "rt" and c.get("repeat"):
         r2, path2 = impl.roundtrip(s, data)
@@ -1610,7 +1944,9 @@ def prepare(impl, c):
         rows = csv_rows(cl, d)
         c["rows"] = rows
     c["loaded"] = loaded
-    if os.path.exists(path):
+    if sess is not None:
+        sess.end(c, live_s, live_data, path)      # (the files of a session stay until the run ends: a later step may write the path again)
+    elif os.path.exists(path):
         os.unlink(path)
     # oracle tables
     for sch in (s, loaded if isinstance(loaded, dict) else {}):
@@ -1654,6 +1990,7 @@ def prepare(impl, c):
                                                clist(c.get("comments") or [], cs), clist(units, lambda u: copt(u, cs)))
 
 
+_LIVE = {}              # (implementation object, session number) -> Session: the caller's state between the steps of a session
 GEN_ENTRY = True        # Entry_scsv_gen.vo is up to date (False: the translator failed closed; the generated functions are not run)
 
 
@@ -1851,7 +2188,18 @@ def compare(chk, cases, outs):
         count("delimiter", repr(s.get("delimiter", "(absent)")))
         count("delimiter_class", delim_class(s.get("delimiter")))
         count("column_container", type(data[0]).__name__ if data else "no columns")
-        if "variant" in c:
+        if c.get("stream") == "session":
+            count("session_variant", c["variant"])
+            count("session_step", "%d of %d" % (c["step"] + 1, len(c["session_steps"])))
+            count("session_caller_edits", "+".join(k for k in SESSION_FLAGS if c.get(k)) or "none")
+            count("session_step_outcome", c["variant"] + ": " + (r[0] if r[0] == "OK" else r[0] + ":" + r[1]))
+            if c["step"] > 0:
+                prev = c["session_steps"][c["step"] - 1]["schema"]["fields"]
+                for f, g in zip(fs, prev):
+                    if "fill" in f and "fill" in g and type(f["fill"]) is not str and type(g["fill"]) is not str \
+                            and f["fill"] == g["fill"] and (type(f["fill"]) is not type(g["fill"]) or repr(f["fill"]) != repr(g["fill"])):
+                        count("session_equal_but_different_fill", "%s: %r after %r" % (f.get("type", "string"), f["fill"], g["fill"]))
+        elif "variant" in c:
             count("blank_row_variant", c["variant"])
         if c.get("inputs_mutated"):
             bad.append((c, "save_scsv / read_scsv modified the caller's schema or columns"))
@@ -2072,6 +2420,11 @@ def oracle(impl, s, data, fault=None):
         except Exception:  # noqa: BLE001
             text = None
         os.unlink(path)
+    return judge(s, data, r, text, fault)
+
+
+def judge(s, data, r, text, fault=None):
+    """what C16 says about ONE save / read pair: schema s, columns data, observed result r, text of the written file"""
     if fault in DOCUMENTED_FAULTS:
         if not (r[0] == "SAVE-ERR" and r[1] == "SCSV"):
             return [(None, f"documented violation {fault} is not refused with SCSVError: {r[:3]}")]
@@ -2134,7 +2487,13 @@ def _run(chk, ok, br, tmp):
         "names / types of any kind; _parse_scsv_cell on 52 look-alike texts x five classes x markers x fills; _parse_scsv_bool); (11) every ASCII "
         "character as delimiter; missing markers that are affixes of cell texts with the fill of each column occurring as a cell of its neighbour; "
         "look-alike texts as string cells / fills / markers; 70 generated terse schemas (+ near misses) compared with the hand-written and the generated "
-        "parser; schemas returned by parse_scsv_schema round-tripped; thorough: 10 000 rows. distinct = distinct (kind, fault, schema, data); non-trivial = "
+        "parser; schemas returned by parse_scsv_schema round-tripped; thorough: 10 000 rows; (12) sessions = consecutive round trips of ONE process, each "
+        "judged on its own: the same fields and marker with the fills replaced by an equal-but-different scalar (0 / 0.0 / -0.0 / False, 1 / 1.0 / True, "
+        "-1 / -1.0, 7 / 7.0, 2^53, 1e16 as int and float; every class forwards and backwards over string / float / complex / integer fields + drawn "
+        "sub-sequences, 1..5 fields, per-field offsets), the missing marker of one file as a cell of the next, the same cell texts under another declared "
+        "type, the fill of one file as an ordinary cell of the next, the very same input three times, one path written with fewer and more rows; the caller "
+        "edits its schema dictionary in place, writes to the previous path and overwrites what it handed over / got back after the call (drawn per session). "
+        "distinct = distinct (kind, fault, schema, data); non-trivial = "
         "the implementation returned at least one cell or raised")
     cases = gen_cases(chk, chk.tier)
     cases += gen_terse_roundtrips(np.random.default_rng(chk.seed + 12), impl.io.parse_scsv_schema)
@@ -2200,8 +2559,15 @@ def _run(chk, ok, br, tmp):
     # ... and are no witnesses of anything new: they are not reported (documented-fault cases are judged by the refusal only)
     pool = [c for c in pool if c["kind"] == "file" or c.get("fault") in DOCUMENTED_FAULTS
             or not (finding_keys(c["schema"], c["data"]) & reproducing)]
+    # the steps of a session are judged as a session (below); a single input is reported only if it also fails in a fresh
+    # process, as the replay will run it -- otherwise the failure needs what earlier calls of THIS process left behind
+    flagged_sessions = [c["session"] for c, _ in list(new) + list(bad) if c.get("session") is not None]
+    pool = [c for c in pool if c.get("session") is None]
+    state_dependent = []
     seen = set()
     for c in pool:
+        if len(state_dependent) >= 4:
+            break
         if c["kind"] == "file":
             if not file_expect_scsv(c):
                 continue
@@ -2229,14 +2595,61 @@ def _run(chk, ok, br, tmp):
         if k in reproducing or (k, fails[0][1][:40]) in seen:
             continue
         seen.add((k, fails[0][1][:40]))
+        fresh = fresh_process_failures(encode_case(c))
+        if not fresh:
+            state_dependent.append(fails[0][1])
+            continue
         small = shrink(impl, c)
         if small is not c:
-            fails = oracle(impl, small["schema"], small["data"], small.get("fault")) or fails
-        found.append((small, fails))
+            fresh_small = fresh_process_failures(encode_case(small))
+            if fresh_small:
+                fresh = fresh_small
+            else:
+                small = c
+        found.append((small, [(None, x) for x in fresh]))
         if len(found) >= 3:
             break
+    chk.cov["search_failures_only_with_process_history"] = state_dependent[:4]
+    if not found:
+        # sessions: every candidate is run in a fresh process (this process has a history); the ones with a step that failed
+        # or disagreed here first, then the ones the oracle fails on here, then the rest
+        sessions = {}
+        for c in cases:
+            if c.get("session") is not None:
+                sessions.setdefault(c["session"], c["session_steps"])
+        order = list(dict.fromkeys(flagged_sessions))
+        rest = [sid for sid in sessions if sid not in order]
+        hinted = []
+        for sid in rest:
+            try:
+                if session_failures(impl, sessions[sid]):
+                    hinted.append(sid)
+            except Exception:  # noqa: BLE001
+                pass
+        order += hinted + [sid for sid in rest if sid not in hinted]
+        tried, variants = 0, set()
+        for sid in order:
+            steps = sessions[sid]
+            if tried >= 8 or found:
+                break
+            if steps[0]["variant"] in variants or any(finding_keys(st["schema"], st["data"]) & reproducing for st in steps):
+                continue
+            tried += 1
+            fresh = fresh_process_failures(encode_session(steps))
+            if not fresh:
+                continue
+            variants.add(steps[0]["variant"])
+            small, fresh = shrink_session(steps, fresh)
+            found.append(({"kind": "session", "steps": small}, [(None, x) for x in fresh]))
+        chk.cov["search_sessions_run_in_fresh_processes"] = tried
     if found:
         for c, fails in found:
+            if c.get("kind") == "session":
+                chk.replay({"kind": "property-violation", "call": "pydrex.io.save_scsv / read_scsv, %d round trips in one process, in this order" % len(c["steps"]),
+                            "input": encode_session(c["steps"]), "observed": [t for _, t in fails],
+                            "required": "C16 (see properties.jsonl), for every round trip of the sequence on its own",
+                            "broken": chk.cov.get("broken_obligations", []), "disagreements": [m for _, m in bad[:3]]})
+                continue
             if c.get("kind") == "file":
                 chk.replay({"kind": "property-violation", "call": "pydrex.io.read_scsv", "input": {"file_text": c["edited_text"], "edit": c["fault"]},
                             "observed": [t for _, t in fails], "required": "C16: SCSVError (see properties.jsonl)",
@@ -2296,6 +2709,8 @@ def replay(d):
     try:
         if "file_text" in d["input"]:
             fails = oracle_file(Impl(tmp), d["input"]["file_text"])
+        elif "session" in d["input"]:
+            fails = session_failures(Impl(tmp), decode_session(d["input"]))
         else:
             s, data, fault = decode_case(d["input"])
             fails = oracle(Impl(tmp), s, data, fault)
